@@ -127,6 +127,8 @@ pub struct WorldOpts {
     /// point the dispatcher's bSei reward contract at the dummy contract (token world of C18: balances that were
     /// never announced to the reward contract must stay transferable)
     pub reward_is_dummy: bool,
+    /// leave the hub without validators registry and airdrop registry (C10 state class)
+    pub skip_registry: bool,
 }
 
 pub fn build_world(c: &Cfg) -> Result<World, String> {
@@ -224,10 +226,10 @@ pub fn build_world_with(c: &Cfg, o: &WorldOpts) -> Result<World, String> {
         HUB,
         &to_json_binary(&h::ExecuteMsg::UpdateConfig {
             rewards_dispatcher_contract: Some(DISPATCHER.into()),
-            validators_registry_contract: Some(REGISTRY.into()),
+            validators_registry_contract: if o.skip_registry { None } else { Some(REGISTRY.into()) },
             bsei_token_contract: Some(BSEI.into()),
             stsei_token_contract: Some(STSEI.into()),
-            airdrop_registry_contract: Some(AIRDROP.into()),
+            airdrop_registry_contract: if o.skip_registry { None } else { Some(AIRDROP.into()) },
             rewards_contract: Some(REWARD.into()),
             update_reward_index_addr: None,
         })
